@@ -3,7 +3,7 @@
    hold; nobody hangs.  With a world of one the toolkit is the identity.  Refuted configurations
    (the model is faithful to the code as it is): D10 (ndim mismatch -> collective mismatch), D9
    (sub-group with an empty list state -> TypeError), C02-state-dtype-follows-data (a state that is
-   float32 on one rank and float64 on another -> collective mismatch in EVERY variant: the per-name
+   float32 on one rank and float64 on another -> collective mismatch in every variant without the dtype negotiation fx_dt: the per-name
    equal-dtype hypothesis of the positive theorems is necessary, and Props/C02_schema.v shows that Max /
    Min / MSE / R2Score / Covariance reach such configurations).
    Statements only; proofs live in Proofs/ToolkitP.v (generic over the metric objects: M, sd =
@@ -131,6 +131,37 @@ Theorem sync_no_mismatch_fixed_ndim :
     run_all (respond g) (map (fun i => get_synced_metric M sd mrg fx g n i Wg (ms i)) (seq 0 n)) <> None.
 Proof. exact ToolkitP.sync_no_mismatch_fixed_ndim. Qed.
 
+(* fx_d10 + fx_dt (ndim and dtype negotiation, fixes/sync-dtype.patch): tensor states of ANY per-rank ndims AND
+   ANY per-rank dtypes (the model's cast is exact: float32 / float64 / bool / integers below 2^53), same sorted
+   distinct state names: nobody hangs and every rank merges the others' tensors, delivered with their own
+   shapes and IN THEIR OWN dtypes *)
+Theorem sync_equals_local_merge_any_dtype :
+  forall (M : Type) (sd : M -> sdict) (mrg : M -> list pseudo_t -> M)
+         (fx : fixes) (g : list nat) (Wg : nat) (ms : nat -> M) (names : list string)
+         (ts : string -> nat -> tensor),
+    let n := List.length g in
+    fx_d10 fx = true -> fx_dt fx = true -> n > 1 -> n <= Wg -> NoDup names ->
+    (forall i, i < n -> map fst (sort_keys (sd (ms i))) = names) ->
+    (forall s, In s names -> forall i, i < n ->
+       assoc s (sd (ms i)) = Some (STensor (ts s i)) /\ wf (shp (ts s i)) (dat (ts s i))) ->
+    run_all (respond g) (map (fun i => get_synced_metric M sd mrg fx g n i Wg (ms i)) (seq 0 n))
+    = Some (map (fun i => Ok (mrg (ms i)
+               (map (fun j => map (fun s => (s, GT (ts s j))) names)
+                    (filter (fun r => negb (Nat.eqb r i)) (seq 0 n))))) (seq 0 n)).
+Proof. exact ToolkitP.sync_equals_local_merge_any_dtype. Qed.
+
+Theorem sync_no_mismatch_any_dtype :
+  forall (M : Type) (sd : M -> sdict) (mrg : M -> list pseudo_t -> M)
+         (fx : fixes) (g : list nat) (Wg : nat) (ms : nat -> M) (names : list string)
+         (ts : string -> nat -> tensor),
+    let n := List.length g in
+    fx_d10 fx = true -> fx_dt fx = true -> n > 1 -> n <= Wg -> NoDup names ->
+    (forall i, i < n -> map fst (sort_keys (sd (ms i))) = names) ->
+    (forall s, In s names -> forall i, i < n ->
+       assoc s (sd (ms i)) = Some (STensor (ts s i)) /\ wf (shp (ts s i)) (dat (ts s i))) ->
+    run_all (respond g) (map (fun i => get_synced_metric M sd mrg fx g n i Wg (ms i)) (seq 0 n)) <> None.
+Proof. exact ToolkitP.sync_no_mismatch_any_dtype. Qed.
+
 Theorem sync_and_compute_equals_local_merge :
   forall (M Out : Type) (sd : M -> sdict) (mrg : M -> list pseudo_t -> M) (cmp : M -> Out)
          (fx : fixes) (g : list nat) (Wg : nat) (ms : nat -> M) order iv tl,
@@ -202,22 +233,37 @@ Theorem sync_refuted_ndim :
     (map (fun i => get_synced_metric mobj base mobj_mrg fx [0;1] 2 i 2
                      (mkM [("s", STensor (nth i [sc 1; v1 [1;2]%Z] (sc 0)))] None)) (seq 0 2))
   = None.
-Proof. intros [a b c d] E. cbn in E. subst d. vm_compute. reflexivity. Qed.
+Proof. intros [a b c d []] E; cbn in E; subst d; vm_compute; reflexivity. Qed.
 
 (* C02-state-dtype-follows-data: Max.max is the float32 default (-inf) on a rank that was never updated and
    float64 on a rank updated with float64 data (Props/C02_schema.v reach_schema_refuted_dtype_max): the two
-   ranks issue all_gather with tensors of different dtype -> mismatch, in every variant (the ndim
-   negotiation of fx_d10 does not look at dtypes).  The checking transport reports CollectiveMismatch on
-   exactly this scenario (witness replay of vlib/parts/C02_sync.py). *)
+   ranks issue all_gather with tensors of different dtype -> mismatch, in every variant WITHOUT the dtype
+   negotiation (the ndim negotiation of fx_d10 alone does not look at dtypes).  The checking transport reports
+   CollectiveMismatch on exactly this scenario (witness replay of vlib/parts/C02_sync.py) on a tree without
+   fixes/sync-dtype.patch.
+   (Before the fx_dt variant existed this was stated for all fx; the hypothesis excludes exactly the repaired
+   variants, for which [sync_dtype_fixed] / [sync_equals_local_merge_any_dtype] hold.) *)
 Definition scd (d : Z) (v : val) : tensor := mkT d [] (TSc v).
 Definition dtype_witness (i : nat) : tensor := nth i [scd 0 (VT "ninf" []); scd 1 (VZ 1)] (scd 0 (VZ 0)).
 Theorem sync_refuted_dtype :
-  forall fx : fixes,
+  forall fx : fixes, fx_d10 fx && fx_dt fx = false ->
   run_all (respond [0;1])
     (map (fun i => get_synced_metric mobj base mobj_mrg fx [0;1] 2 i 2
                      (mkM [("max", STensor (dtype_witness i))] None)) (seq 0 2))
   = None.
-Proof. intros [[] [] [] []]; vm_compute; reflexivity. Qed.
+Proof. intros [[] [] [] [] []] E; try discriminate E; vm_compute; reflexivity. Qed.
+(* repaired (fx_d10 + fx_dt suffice): each rank merges the other's tensor in the OTHER's dtype *)
+Theorem sync_dtype_fixed :
+  let st i := [("max", STensor (dtype_witness i))] in
+  let expected := Some [Ok (mkM (st 0) (Some [[("max", GT (dtype_witness 1))]]));
+                        Ok (mkM (st 1) (Some [[("max", GT (dtype_witness 0))]]))] in
+  run_all (respond [0;1])
+    (map (fun i => get_synced_metric mobj base mobj_mrg (mkFx false false false true true) [0;1] 2 i 2 (mkM (st i) None)) (seq 0 2))
+  = expected /\
+  run_all (respond [0;1])
+    (map (fun i => get_synced_metric mobj base mobj_mrg V_fixed [0;1] 2 i 2 (mkM (st i) None)) (seq 0 2))
+  = expected.
+Proof. split; vm_compute; reflexivity. Qed.
 (* the witness is a reachable configuration of the class model: rank 0 = Max() never updated, rank 1 = Max()
    after one update with float64 data *)
 Example sync_refuted_dtype_reachable :
@@ -258,7 +304,7 @@ Theorem sync_ndim_fixed :
   let expected := Some [Ok (mkM (st 0) (Some [[("s", GT (v1 [1;2]%Z))]]));
                         Ok (mkM (st 1) (Some [[("s", GT (sc 1))]]))] in
   run_all (respond [0;1])
-    (map (fun i => get_synced_metric mobj base mobj_mrg (mkFx false false false true) [0;1] 2 i 2 (mkM (st i) None)) (seq 0 2))
+    (map (fun i => get_synced_metric mobj base mobj_mrg (mkFx false false false true false) [0;1] 2 i 2 (mkM (st i) None)) (seq 0 2))
   = expected /\
   run_all (respond [0;1])
     (map (fun i => get_synced_metric mobj base mobj_mrg V_fixed [0;1] 2 i 2 (mkM (st i) None)) (seq 0 2))
@@ -277,6 +323,9 @@ Print Assumptions sync_no_mismatch_fixed_ndim.
 Print Assumptions sync_and_compute_equals_local_merge.
 Print Assumptions sync_refuted_ndim.
 Print Assumptions sync_refuted_dtype.
+Print Assumptions sync_dtype_fixed.
+Print Assumptions sync_equals_local_merge_any_dtype.
+Print Assumptions sync_no_mismatch_any_dtype.
 Print Assumptions sync_refuted_subgroup_root.
 Print Assumptions sync_subgroup_root_fixed.
 Print Assumptions sync_ndim_fixed.
